@@ -115,11 +115,8 @@ def r1(ctx):
             ctx.violation("associativity/%s" % short(fn, 1), ctx.where(fn),
                           "operators of equal precedence must associate to the left, each with its own operator: %s" % "; ".join(bad))
     # brackets restart at the top level and unary minus is handled at the leaf
-    pp = ctx.anchor_hir(PAREN)
-    ok = len(calls_to(pp, "Parser::parse_expr")) == 2 and len(calls_to(pp, "Parser::parse_func_scalar")) == 1
-    ctx.obligation(ok)
-    if not ok:
-        ctx.violation("precedence/brackets", ctx.where(PAREN), "a bracket must contain a full expression and anything else must be a leaf")
+    # (parse_paren evaluated on 9 bracket shapes: a bracket of either style holds one full expression, anything else is a leaf)
+    __import__("c03").brackets(ctx)
     fs = ctx.anchor_hir(FUNC_SCALAR)
     sets = [x for x in walk_exprs(fs) if x["k"] == "Assign" and x["l"]["k"] == "Field" and x["l"]["name"] == "minus"]
     ok = len(sets) >= 3 and all(render(x["r"]) == "minus" for x in sets)
